@@ -3,6 +3,7 @@
 package jt
 
 import (
+	"math"
 	"fmt"
 	"strconv"
 	"strings"
@@ -59,6 +60,9 @@ func (c *Canon) Term(t engine.Term) J {
 	case engine.Atom:
 		return []J{"a", t.String()}
 	case engine.Integer:
+		if k, ok := narrow[int64(t)]; ok {
+			return []J{"i", float64(k)}
+		}
 		if t > 1<<30 || t < -(1<<30) {
 			return []J{"n", strconv.FormatInt(int64(t), 10)}
 		}
@@ -143,6 +147,17 @@ func charString(t J) (string, bool) {
 	}
 }
 
+// Wide: TLC's integers have 32 bits. Six model integers stand for integers near the 64-bit limits; the map preserves the order
+// (every other model integer lies between -7000 and 7000), which is all that the models using them speak about.
+var Wide = map[int]int64{-7003: math.MinInt64, -7002: -5000000000000000000, -7001: -(1 << 62), 7001: 1 << 62, 7002: 5000000000000000000, 7003: math.MaxInt64}
+var narrow = func() map[int64]int {
+	m := map[int64]int{}
+	for k, w := range Wide {
+		m[w] = k
+	}
+	return m
+}()
+
 func RenderWith(t J, vname func(int) string) string {
 	a := t.([]J)
 	switch a[0].(string) {
@@ -150,6 +165,12 @@ func RenderWith(t J, vname func(int) string) string {
 		return Atom(a[1].(string))
 	case "i":
 		n := Int(a[1])
+		if w, ok := Wide[n]; ok {
+			if w < 0 {
+				return "(" + strconv.FormatInt(w, 10) + ")"
+			}
+			return strconv.FormatInt(w, 10)
+		}
 		if n < 0 {
 			return "(" + strconv.Itoa(n) + ")"
 		}
